@@ -4,9 +4,12 @@ import (
 	"bytes"
 	"crypto/rand"
 	"crypto/rsa"
+	"crypto/x509"
+	"crypto/x509/pkix"
 	"encoding/binary"
 	"errors"
 	"fmt"
+	"math/big"
 	"sort"
 	"time"
 
@@ -403,4 +406,108 @@ func c09(seed uint64, n int, replay string) {
 	c09toy(r, n)
 	c09real(r, n)
 	c09chan(r, 2*n)
+	c09open(r, n)
+}
+
+// ---- c09open: an OpenSecureChannel exchange that fails at key derivation must publish nothing ----
+
+var atkKey *rsa.PrivateKey
+var atkCert []byte
+
+// attacker: a throw-away RSA key and certificate
+func attacker() (*rsa.PrivateKey, []byte) {
+	if atkKey == nil {
+		k, err := rsa.GenerateKey(rand.Reader, 2048)
+		if err != nil {
+			panic(err)
+		}
+		tpl := &x509.Certificate{SerialNumber: big.NewInt(7), Subject: pkix.Name{CommonName: "throw-away"},
+			NotBefore: time.Now().Add(-time.Hour), NotAfter: time.Now().Add(time.Hour), KeyUsage: x509.KeyUsageDigitalSignature | x509.KeyUsageKeyEncipherment}
+		d, err := x509.CreateCertificate(rand.Reader, tpl, tpl, &k.PublicKey, k)
+		if err != nil {
+			panic(err)
+		}
+		atkKey, atkCert = k, d
+	}
+	return atkKey, atkCert
+}
+
+type c09openObs struct {
+	Name       string `json:"name"`
+	Policy     string `json:"policy"`
+	Mode       int    `json:"mode"`
+	NonceLen   int    `json:"nonce_len"` // -1 null
+	Open       string `json:"open"`      // what Receive returned for the OPN request
+	OpenErr    string `json:"open_err,omitempty"`
+	Instances  int    `json:"instances"` // instances in the table afterwards
+	Active     bool   `json:"active"`    // an active instance exists afterwards
+	Forged     string `json:"forged"`    // what Receive returned for a MSG chunk signed with the throw-away key
+	ForgedErr  string `json:"forged_err,omitempty"`
+	ForgedData string `json:"forged_chunk"`
+}
+
+func c09open(r *rng.R, n int) {
+	ak, ac := attacker()
+	for _, uri := range []string{ua.SecurityPolicyURIBasic256Sha256, ua.SecurityPolicyURIAes128Sha256RsaOaep} {
+		for _, mode := range []ua.MessageSecurityMode{ua.MessageSecurityModeSign} {
+			for _, nl := range []int{-1, 0, 1, 32} {
+				peer, conn := pair(defaultAck(65535, 16, 1<<20))
+				go func() { // swallow what the server writes
+					buf := make([]byte, 65536)
+					for {
+						if _, err := peer.Read(buf); err != nil {
+							return
+						}
+					}
+				}()
+				cfg := &uasc.Config{SecurityPolicyURI: ua.SecurityPolicyURINone, SecurityMode: ua.MessageSecurityModeNone, Certificate: cert(), LocalKey: key(), Lifetime: 3600000, RequestTimeout: time.Second}
+				sc, err := uasc.NewServerSecureChannel("", conn, cfg, make(chan error, 16), chanID, 1, tokID)
+				if err != nil {
+					panic(err)
+				}
+				v := uasc.VerifChannel{S: sc}
+				// the attacker's side of the OPN exchange: signs with its own key, encrypts to the server's certificate
+				aalgo, err := uapolicy.Asymmetric(uri, ak, &key().PublicKey)
+				if err != nil {
+					panic(err)
+				}
+				var nonce []byte
+				if nl >= 0 {
+					nonce = r.Bytes(nl)
+					if nl == 0 {
+						nonce = []byte{}
+					}
+				}
+				req := &ua.OpenSecureChannelRequest{RequestHeader: &ua.RequestHeader{AuthenticationToken: ua.NewTwoByteNodeID(0), RequestHandle: 1, AdditionalHeader: ua.NewExtensionObject(nil)},
+					RequestType: ua.SecurityTokenRequestTypeIssue, SecurityMode: mode, ClientNonce: nonce, RequestedLifetime: 3600000}
+				raw, m := rawOpn(uri, ac, uapolicy.Thumbprint(cert()), 1, 1, reencode(req))
+				sender := uasc.VerifNewInstance(uri, mode, aalgo, chanID, tokID, 0)
+				opn, err := sender.SignAndEncrypt(m, raw)
+				if err != nil {
+					panic(err)
+				}
+				o := c09openObs{Name: "open", Policy: shortName(uri), Mode: int(mode), NonceLen: nl}
+				peer.Write(opn)
+				x := recvOne(sc, conn, 3*time.Second)
+				o.Open, o.OpenErr = x.K, x.Err
+				for _, l := range v.Instances() {
+					o.Instances += len(l)
+				}
+				_, _, _, o.Active = v.ActiveToken()
+				// a MSG chunk signed with the throw-away key (the asymmetric algorithm of the OPN exchange)
+				fraw := symChunk("MSG", 'F', chanID, tokID, 50, 6, svcBody(3, []byte("forged")))
+				forged, err := sender.SignAndEncrypt(symMessage(50, 6), fraw)
+				if err != nil {
+					panic(err)
+				}
+				o.ForgedData = hx(forged)
+				peer.Write(forged)
+				y := recvOne(sc, conn, 3*time.Second)
+				o.Forged, o.ForgedErr = y.K, y.Err
+				enc.Encode(o)
+				peer.Close()
+				conn.Close()
+			}
+		}
+	}
 }
